@@ -14,7 +14,7 @@ import re
 
 from ..engine import rule
 from ..model import Undecided, template_placeholders
-from ..cfg import dotted, call_name, is_call, simple_name, unparse, const_value, contains, enclosing
+from ..cfg import same, dotted, call_name, is_call, simple_name, unparse, const_value, contains, enclosing
 from ..flow import Defs, depends, try_const, scoped_defs
 from ..util import resolve1, factors, sum_of_products, keyword, returns_of, calls_in, inside, order_key
 
@@ -73,7 +73,7 @@ def c18a(ctx):
     rets = g.find_stmts(lambda s: isinstance(s, ast.Return))
     defs = Defs(rr.node)
     resp = [v for v, sel in defs.of('resp')]
-    ok = len(resp) == 3 and bool(rets) and all(unparse(g.stmt[r].value) == 'resp' for r in rets)
+    ok = len(resp) == 3 and bool(rets) and all(same(g.stmt[r].value, 'resp') for r in rets)
     st = [s for s in rr.node.body if isinstance(s, ast.If)]
     ok = ok and bool(st) and bool(st[0].orelse)
     ctx.check(ok, 'RequestError.render:always-response', 'render() builds a response on all three branches (handler / status only / internal)', rr)
@@ -103,7 +103,7 @@ def c18b(ctx):
             if isinstance(e, ast.Name):
                 ds = defs.of(e.id)
                 v = ds[0][0] if len(ds) == 1 and ds[0][1] is None else None
-            ok = v is not None and isinstance(v, ast.Call) and len(v.args) >= 1 and unparse(v.args[0]) == 'request_error.msg'
+            ok = v is not None and isinstance(v, ast.Call) and len(v.args) >= 1 and same(v.args[0], 'request_error.msg')
             if ok:
                 q = ctx.repo.resolve_name(fn.mod, v.func)
                 imp = fn.mod.imports.get(v.func.id) if isinstance(v.func, ast.Name) else None
@@ -313,7 +313,7 @@ def c18e(ctx):
     dct = rcls.attr_value('default_content_type')
     ok = ok and isinstance(const_value(dct), str) and const_value(dct).startswith('text/plain')
     resp_init = ctx.fn('mapproxy/response.py:Response.__init__')
-    ok = ok and any(isinstance(st, ast.Assign) and unparse(st.targets[0]) == 'content_type' and unparse(st.value) == 'self.default_content_type'
+    ok = ok and any(isinstance(st, ast.Assign) and unparse(st.targets[0]) == 'content_type' and same(st.value, 'self.default_content_type')
                     for st in resp_init.walk())
     ctx.check(ok, 'RequestError.render:fallback-text-plain', 'status-only / internal fall-backs use the Response default type text/plain', rr)
 
@@ -414,7 +414,7 @@ def c18i(ctx):
     lt = ctx.fn('mapproxy/cache/tile.py:TileManager._load_tile_coords')
     g = lt.cfg
     loads = [n for n, x in g.find(lambda x: is_call(x, 'self.cache.load_tiles'))]
-    labels = g.find_stmts(lambda s: isinstance(s, ast.Assign) and unparse(s.targets[0]).endswith('.source.image_opts') and unparse(s.value) == 'self.image_opts')
+    labels = g.find_stmts(lambda s: isinstance(s, ast.Assign) and unparse(s.targets[0]).endswith('.source.image_opts') and same(s.value, 'self.image_opts'))
     rets = [r for r in g.find_stmts(lambda s: isinstance(s, ast.Return)) if loads and any(g.reaches_avoiding(l, r) for l in loads)]
     loops = [g.node_of[id(l)] for l in lt.walk() if isinstance(l, ast.For) and id(l) in g.node_of and any(inside(g.stmt[s], l) for s in labels)]
     central = bool(loads) and bool(loops) and all(any(g.dominates(l, lp) for l in loads) for lp in loops) and \
@@ -489,7 +489,7 @@ def _removes_chars(fn, expr, want, ctx, depth=2):
                                 return True
                             if unparse(a) == cv and const_value(b, None) == ' ' and isinstance(op, ast.GtE):
                                 return True
-                            if unparse(a) == 'ord(%s)' % cv and const_value(b, None) in (32, 31) and isinstance(op, (ast.GtE, ast.Gt)):
+                            if same(a, 'ord(%s)' % cv) and const_value(b, None) in (32, 31) and isinstance(op, (ast.GtE, ast.Gt)):
                                 return True
     reps = {const_value(x.args[0], None) for x in ast.walk(expr) if isinstance(x, ast.Call) and isinstance(x.func, ast.Attribute) and
             x.func.attr == 'replace' and len(x.args) == 2 and const_value(x.args[1], 1) == ''}
@@ -549,7 +549,7 @@ def c18k(ctx):
                   fail='header values are emitted as they are: a CR/LF in INFO_FORMAT (empty GetFeatureInfo result) or FORMAT (in-image exception) '
                        'injects a header line into the response')
     call = ctx.fn('mapproxy/response.py:Response.__call__')
-    ok = any(is_call(x, 'start_response') and len(x.args) >= 2 and unparse(x.args[1]) == 'self.fixed_headers' for x in call.walk())
+    ok = any(is_call(x, 'start_response') and len(x.args) >= 2 and same(x.args[1], 'self.fixed_headers') for x in call.walk())
     ctx.check(ok, 'Response.__call__:emits-fixed-headers', 'start_response receives the filtered header list', call)
 
 
@@ -600,7 +600,7 @@ def c18m(ctx):
                   fail='the crop box %s does not span dst_size from its upper left corner: the image is a pixel larger or smaller than the size it is '
                        'declared with (the merger returns it as it is for a single opaque layer)' % unparse(box)[:90])
     trs = [x for x in fn.walk() if isinstance(x, ast.Call) and isinstance(x.func, ast.Attribute) and x.func.attr == 'transform' and x.args]
-    ok = bool(trs) and all(unparse(x.args[0]) == 'dst_size' for x in trs)
+    ok = bool(trs) and all(same(x.args[0], 'dst_size') for x in trs)
     ctx.check(ok, 'ImageTransformer._transform_simple:resample-to-requested-size', 'the resampled branch transforms to dst_size', fn)
 
 
@@ -617,7 +617,7 @@ def c18n(ctx):
             for v in vals:
                 n += 1
                 form = fn.canon.expr(v)
-                safe = isinstance(form, ast.Constant) or unparse(form) == 'mapproxy.version.version' or is_call(form, 'escape_html', 'escape')
+                safe = isinstance(form, ast.Constant) or same(form, 'mapproxy.version.version') or is_call(form, 'escape_html', 'escape')
                 ctx.check(safe, 'MapProxyApp.welcome_response:html-value-%d' % n, 'the value %s formatted into the page is escaped / constant' % unparse(form)[:50], fn, x,
                           fail='the request-derived value %s is formatted into the HTML of the root page without escape_html: a Host / X-Forwarded-Host '
                                'header with markup characters injects elements and attributes' % unparse(form)[:60])
